@@ -339,6 +339,31 @@ def c06(ctx):
                 meta.append({"family": f, "case": ci, "variant": v, "bytes": data.decode("latin-1"),
                              "digests": [x[:600] for x in list(digs.keys())[:3]], "kinds": _kinds(digs), "exc": ref_ev["exc"],
                              "cuts": "seg_set", "nseg": len(ids)})
+    # the same under non-default limit settings (0 = "unlimited" / "use the hard maximum", and small limits): whatever
+    # the parser decides, it decides the same for every segmentation
+    for cfgkw in ({"limit_request_fields": 0}, {"limit_request_field_size": 0}, {"limit_request_line": 0},
+                  {"limit_request_fields": 3, "limit_request_field_size": 40, "limit_request_line": 60}):
+        cfgv = drv.make_cfg(**cfgkw)
+        for f in ("heads1", "pipeline", "chunks"):
+            cases = emit_cases(f)
+            cases = rng.sample(cases, min(len(cases), 25 if ctx.quick else 250))
+            for ci, case in enumerate(cases):
+                v = rng.randrange(cz.num_variants(case["ms"]))
+                data = bytes(cz.concretize(case["ms"], v, case["cut"]).data)
+                digs, ev = {}, []
+                n = len(data)
+                segsets = [[], list(range(1, n))] + [[i] for i in range(1, n, 1 if not ctx.quick else 2)] + \
+                    [rand_cuts(rng, n) for _ in range(6)]
+                for si, cuts in enumerate(segsets):
+                    obs = drv.run(data, cuts, cfg=cfgv, mode="read", source="sock" if si % 3 == 2 else "iter")
+                    nruns += 1
+                    d = json.dumps(drv.digest(obs), sort_keys=True)
+                    ev.append({"e": "seg", "dig": digs.setdefault(d, len(digs) + 1)})
+                traces.append({"ms": case["ms"], "cut": case["cut"], "mode": "read", "ev": ev})
+                meta.append({"family": f, "case": ci, "variant": v, "bytes": data.decode("latin-1"),
+                             "shape": "cfg:" + ",".join("%s=%s" % (k.replace("limit_request_", ""), x) for k, x in sorted(cfgkw.items())),
+                             "digests": [x[:600] for x in list(digs.keys())[:3]], "kinds": _kinds(digs), "exc": None,
+                             "cuts": "seg_set", "nseg": len(segsets)})
     ctx.coverage["parser_runs"] = nruns
     # through the workers' connection handling: the requests the application sees must not depend on how the bytes
     # were split across reads either (kept-alive connections go back to the poller / handler loop between requests)
@@ -374,7 +399,7 @@ def c06(ctx):
                       {"trace": t, "meta": m})
     for t, m in list(zip(traces, meta))[:2]:
         ctx.sample({"bytes": m["bytes"][:120], "segmentations": m["nseg"], "distinct_observations": len(m["digests"])})
-    ctx.assumptions += ["default parser configuration (C06 quantifies over inputs and schedules)",
+    ctx.assumptions += ["default parser configuration, plus four non-default limit settings on sampled streams",
                         "reads of at most 8192 bytes (SocketUnreader) / arbitrary segments (IterUnreader)"]
 
 
